@@ -1306,7 +1306,9 @@ def transform(fn, proceed, to_instrument=True, set_conformer=True):
 
     glb[fnsym] = actual_fn
 
-    all_vars = transformer.used | transformer.assigned
+    # The closure variables include those that only a nested class or function
+    # reads: they get an interaction at entry like the others
+    all_vars = transformer.used | transformer.assigned | transformer.free
 
     info = {
         k: {
